@@ -106,6 +106,7 @@ def run(ctx):
     ctx.cov["distinct_pool_values"] = rep["extra"]["distinct_values"]
     ctx.cov["otlp_records_decoded"] = rep["extra"]["otlp_records"]
     ctx.cov["file_lines"] = rep["extra"]["file_lines"]
+    ctx.cov["file_events_refused_unencodable_key"] = rep["extra"].get("file_events_refused_unencodable_key", 0)
     ctx.cov["total_mismatches"] = rep["total_mismatches"]
     ctx.cov["mismatch_categories"] = rep["extra"].get("mismatch_categories", {})
     ctx.assumptions += [
@@ -113,11 +114,15 @@ def run(ctx):
         "serde_json decides JSON well-formedness; a strict reader (duplicate members, number text) does the projection",
         "values come from a seeded pool (type extremes, -0.0, subnormals, control / non-BMP characters, "
         "empty and long strings, error chains, serde+sval derived struct/enum), not from TLC",
-        "map keys limited to text, bool, i64, f64; well-known keys carry the shapes they are defined for; "
+        "map keys: text, bool, i64, f64, byte strings, sequences; for byte-string / sequence keys the text form in "
+        "OTLP is not decided (non-empty, distinct, protobuf = JSON) and the file writer may refuse the event "
+        "(sval_json cannot make a member name of them: no line, never a mangled one); well-known keys carry the "
+        "shapes they are defined for; "
         "timestamps within the range OTLP can carry (u64 nanoseconds)",
         "not decided (statement silent): attribute order, is_monotonic / temporality, span status without err, "
-        "ids on metric samples, enum variant wrapper, text form of non-text keys (must read back as the key), "
-        "rendering of NaN/Inf in JSON, terminal output beyond 'no panic and the message text is there'",
+        "ids on metric samples, placement of metric points in a backwards range, enum variant wrapper, text form of non-text keys (must read back as the key), "
+        "rendering of NaN/Inf in JSON, terminal layout / colours (checked: module, level, kind, abbreviated ids, "
+        "message with the hole's value, error text and every cause in chain order)",
         "bounded: %s" % vlib.cfg_header(os.path.join(vlib.SPEC, cfg)),
     ]
     if rep["extra"].get("unattributed_file_lines"):
